@@ -21,6 +21,14 @@
 (*   - on every transition of the model   (U1: Call_MC),                   *)
 (*   - on every recorded step of the REAL server (Monitor_C15).            *)
 (*                                                                         *)
+(* Where the actions of DESIGN.md 3.6 are:  Invite = Pub with head.webrtc  *)
+(* (ANY non-nil value marks an invitation, topic.go:1072);  Ringing,       *)
+(* Accept, Offer/Answer/IceCandidate, HangUp = the branches of CallEvent;  *)
+(* Timeout = the "CallTimeout" request (the harness makes the REAL timer    *)
+(* expire);  PartyLeaves = "Leave" / "Disconnect" of a party session;      *)
+(* StaleOrForeignEvent = every branch of Note / CallEvent that returns     *)
+(* Res(S, 0) or Res(S, 409).                                               *)
+(*                                                                         *)
 (* State S = [live, att, attG, onMe : sets of sessions,                    *)
 (*            canW : member -> BOOLEAN,                                    *)
 (*            msgs : Seq([from, webrtc, replace, content]) (index = seq),  *)
